@@ -103,7 +103,7 @@ static bool apply_fault(std::string &b, int kind, uint64_t x, uint64_t y, uint64
         case 4: { if (!n) return false; size_t p = x % n, l = 1 + y % 6; b.insert(p, b.substr(p, l)); return true; }
         case 5: { static const char st[] = "[]{},:\"\\-0e.tfn"; b.insert(x % (n + 1), 1, st[y % (sizeof st - 1)]); return true; }
         case 6: { std::string o = make_doc((int64_t)seed, (int64_t)(seed >> 7), 0); size_t cut = n ? x % (n + 1) : 0, oc = o.size() ? y % (o.size() + 1) : 0; b = b.substr(0, cut) + o.substr(oc); return true; }
-        case 7: { auto v = positions(b, "[]{},:\""); if (v.empty()) return false; static const char st[] = "[]{},:\""; size_t p = v[x % v.size()]; char c = st[y % 7]; if (c == b[p]) c = st[(y + 1) % 7]; b[p] = c; return true; }
+        case 7: { auto v = positions(b, "[]{},:\""); if (v.empty()) return false; static const char st[] = "[]{},:\"=;'|()<>"; size_t p = v[x % v.size()]; char c = st[y % 15]; if (c == b[p]) c = st[(y + 1) % 15]; b[p] = c; return true; }
         case 8: { auto v = positions(b, "[]{},:"); if (v.empty()) return false; b.erase(v[x % v.size()], 1); return true; }
         case 9: { auto v = positions(b, ",:"); if (v.empty()) return false; size_t p = v[x % v.size()]; b.insert(p, 1, b[p]); return true; }
         case 10: {
